@@ -78,6 +78,8 @@ pub mod sp {
         choose|p: int| is_first(s, k, p)
     }
     /// s without the first occurrence of k (all occurrences when s has no duplicates).
+    /// Opaque: its definition mentions `remove`, which the lemma b_nodup_pos maps back to rm1 (a matching loop if unfolded freely).
+    #[verifier::opaque]
     pub open spec fn rm1(s: Seq<String>, k: String) -> Seq<String> {
         if s.contains(k) { s.remove(first_pos(s, k)) } else { s }
     }
@@ -132,7 +134,7 @@ pub mod sp {
     pub proof fn lemma_nodup_pos(s: Seq<String>, i: int)
         requires s.no_duplicates(), 0 <= i < s.len()
         ensures is_first(s, s[i], i), first_pos(s, s[i]) == i, rm1(s, s[i]) == s.remove(i)
-    {
+    { reveal(rm1);
         assert(is_first(s, s[i], i));
         lemma_first_pos_unique(s, s[i], i);
     }
@@ -173,7 +175,7 @@ pub mod sp {
         ensures wf(m.remove(k), rm1(q, k)), !rm1(q, k).contains(k),
             q.contains(k) ==> rm1(q, k).len() == q.len() - 1,
             !q.contains(k) ==> rm1(q, k) == q && m.remove(k) == m,
-    {
+    { reveal(rm1);
         if q.contains(k) {
             lemma_contains_has_first(q, k);
             let p = first_pos(q, k);
@@ -215,7 +217,7 @@ pub mod sp {
         requires wf(m, q)
         ensures wf(m.insert(k, e), touch(q, k)),
             touch(q, k).len() == (if q.contains(k) { q.len() } else { q.len() + 1 }),
-    {
+    { reveal(rm1);
         lemma_wf_remove(m, q, k);
         let r = rm1(q, k);
         lemma_push_nodup(r, k);
@@ -241,17 +243,17 @@ pub mod sp {
     pub broadcast proof fn b_wf_remove<V>(m: Map<String, V>, q: Seq<String>, k: String)
         requires wf(m, q)
         ensures #[trigger] wf(m.remove(k), rm1(q, k))
-    { lemma_wf_remove(m, q, k); }
+    { reveal(rm1); lemma_wf_remove(m, q, k); }
 
     pub broadcast proof fn b_wf_store<V>(m: Map<String, V>, q: Seq<String>, k: String, e: V)
         requires wf(m, q)
         ensures #[trigger] wf(m.insert(k, e), touch(q, k))
-    { lemma_wf_store(m, q, k, e); }
+    { reveal(rm1); lemma_wf_store(m, q, k, e); }
 
     pub broadcast proof fn b_wf_touch<V>(m: Map<String, V>, q: Seq<String>, k: String)
         requires wf(m, q), m.contains_key(k)
         ensures #[trigger] wf(m, touch(q, k))
-    { lemma_wf_store(m, q, k, m[k]); assert(m.insert(k, m[k]) =~= m); }
+    { reveal(rm1); lemma_wf_store(m, q, k, m[k]); assert(m.insert(k, m[k]) =~= m); }
 
     /// same key set, same queue: still well-formed (used after a hit changed only an entry's counters)
     pub proof fn lemma_wf_same_dom<V>(m: Map<String, V>, m2: Map<String, V>, q: Seq<String>)
@@ -262,17 +264,17 @@ pub mod sp {
     pub broadcast proof fn b_nodup_pos(s: Seq<String>, i: int)
         requires s.no_duplicates(), 0 <= i < s.len()
         ensures #[trigger] s.remove(i) == rm1(s, s[i])
-    { lemma_nodup_pos(s, i); }
+    { reveal(rm1); lemma_nodup_pos(s, i); }
 
     pub broadcast proof fn b_index_contains(s: Seq<String>, i: int)
         requires 0 <= i < s.len()
         ensures s.contains(#[trigger] s[i])
     { }
 
-    pub broadcast proof fn b_pop_front_is_remove0(s: Seq<String>)
-        requires s.len() > 0
-        ensures #[trigger] s.subrange(1, s.len() as int) == s.remove(0)
-    { assert(s.subrange(1, s.len() as int) =~= s.remove(0)); }
+    pub broadcast proof fn b_pop_front_is_remove0(s: Seq<String>, j: int)
+        requires s.len() > 0, j == s.len()
+        ensures #[trigger] s.subrange(1, j) == s.remove(0)
+    { assert(s.subrange(1, j) =~= s.remove(0)); }
 
     pub broadcast proof fn b_drop_first_is_remove0(s: Seq<String>)
         requires s.len() > 0
@@ -281,17 +283,18 @@ pub mod sp {
 
     pub broadcast proof fn b_pop_back_is_remove_last(s: Seq<String>)
         requires s.len() > 0
-        ensures #[trigger] s.drop_last() == s.remove(s.len() - 1), #[trigger] s.subrange(0, s.len() - 1) == s.remove(s.len() - 1)
-    { assert(s.drop_last() =~= s.remove(s.len() - 1)); assert(s.subrange(0, s.len() - 1) =~= s.remove(s.len() - 1)); }
+        ensures #[trigger] s.drop_last() == s.remove(s.len() - 1)
+    { assert(s.drop_last() =~= s.remove(s.len() - 1)); }
 
     pub broadcast proof fn b_rm1_len(s: Seq<String>, k: String)
-        ensures (#[trigger] rm1(s, k)).len() == (if s.contains(k) { s.len() - 1 } else { s.len() as int })
-    { if s.contains(k) { lemma_contains_has_first(s, k); } }
+        ensures (#[trigger] rm1(s, k)).len() == (if s.contains(k) { s.len() - 1 } else { s.len() as int }),
+            !s.contains(k) ==> rm1(s, k) == s,
+    { reveal(rm1); if s.contains(k) { lemma_contains_has_first(s, k); } }
 
     pub broadcast proof fn b_rm_all_nodup(s: Seq<String>, k: String)
         requires s.no_duplicates()
         ensures #[trigger] rm_all(s, k) == rm1(s, k)
-    { lemma_rm_all_nodup(s, k); }
+    { reveal(rm1); lemma_rm_all_nodup(s, k); }
 
     pub broadcast proof fn b_wf_len<V>(m: Map<String, V>, q: Seq<String>)
         ensures #[trigger] wf(m, q) ==> q.len() == m.dom().len()
@@ -315,14 +318,140 @@ pub mod sp {
         assert forall|x: String| #[trigger] m.insert(k, e).contains_key(x) <==> q.push(k).contains(x) by { }
     }
 
-    pub broadcast group group_wf { b_wf_push, b_wf_mutated, b_rm_all_nodup, b_wf_len, b_rm1_len, b_wf_remove, b_wf_store, b_wf_touch, b_nodup_pos, b_index_contains,
+    /// makes the last element of a pushed sequence available as a term (witness for "some stored entry ...")
+    pub broadcast proof fn b_push_last(s: Seq<String>, k: String)
+        ensures (#[trigger] s.push(k))[s.len() as int] == k, s.push(k).len() == s.len() + 1
+    { }
+
+    pub broadcast proof fn b_push_drop_last(s: Seq<String>, x: String)
+        ensures #[trigger] s.push(x).drop_last() == s
+    { assert(s.push(x).drop_last() =~= s); }
+
+    pub broadcast proof fn b_push_subrange(s: Seq<String>, x: String, j: int)
+        requires j == s.len()
+        ensures #[trigger] s.push(x).subrange(0, j) == s
+    { assert(s.push(x).subrange(0, j) =~= s); }
+
+    pub broadcast proof fn b_insert_remove_same<V>(m: Map<String, V>, k: String, e: V)
+        ensures #[trigger] m.insert(k, e).remove(k) == m.remove(k)
+    { assert(m.insert(k, e).remove(k) =~= m.remove(k)); }
+
+    /// s is what is left of t after dropping some oldest (front) elements
+    pub open spec fn is_suffix(s: Seq<String>, t: Seq<String>) -> bool {
+        exists|j: int| 0 <= j <= t.len() && s == #[trigger] t.subrange(j, t.len() as int)
+    }
+
+    pub broadcast proof fn b_suffix_refl(t: Seq<String>)
+        ensures #[trigger] is_suffix(t, t)
+    { assert(t =~= t.subrange(0, t.len() as int)); }
+
+    pub broadcast proof fn b_suffix_pop(s: Seq<String>, t: Seq<String>)
+        requires is_suffix(s, t), s.len() > 0
+        ensures #[trigger] is_suffix(s.remove(0), t)
+    {
+        let j = choose|j: int| 0 <= j <= t.len() && s == #[trigger] t.subrange(j, t.len() as int);
+        assert(s.remove(0) =~= t.subrange(j + 1, t.len() as int));
+    }
+
+    pub broadcast proof fn b_rm1_index(s: Seq<String>, i: int)
+        requires s.no_duplicates(), 0 <= i < s.len()
+        ensures #[trigger] rm1(s, s[i]) == s.remove(i)
+    { reveal(rm1); lemma_nodup_pos(s, i); }
+
+    pub broadcast group group_wf { b_suffix_refl, b_suffix_pop, b_rm1_index, b_push_subrange, b_push_drop_last, b_insert_remove_same, b_push_last, b_wf_push, b_wf_mutated, b_rm_all_nodup, b_wf_len, b_rm1_len, b_wf_remove, b_wf_store, b_wf_touch, b_nodup_pos,
         b_pop_front_is_remove0, b_drop_first_is_remove0, b_pop_back_is_remove_last }
+
+    // ---- memory totals: the sum of a per-entry size along the queue (under wf the queue enumerates the store exactly once)
+    pub open spec fn total_q<V>(m: Map<String, V>, q: Seq<String>, f: spec_fn(V) -> nat) -> nat
+        decreases q.len()
+    {
+        if q.len() == 0 { 0 } else { total_q(m, q.drop_last(), f) + f(m[q.last()]) }
+    }
+
+    pub proof fn lemma_total_frame<V>(m1: Map<String, V>, m2: Map<String, V>, q: Seq<String>, f: spec_fn(V) -> nat)
+        requires forall|i: int| 0 <= i < q.len() ==> m1[#[trigger] q[i]] == m2[q[i]]
+        ensures total_q(m1, q, f) == total_q(m2, q, f)
+        decreases q.len()
+    {
+        if q.len() > 0 {
+            assert forall|i: int| 0 <= i < q.drop_last().len() implies m1[#[trigger] q.drop_last()[i]] == m2[q.drop_last()[i]] by {
+                assert(q.drop_last()[i] == q[i]);
+            }
+            lemma_total_frame(m1, m2, q.drop_last(), f);
+            assert(q.last() == q[q.len() - 1]);
+        }
+    }
+
+    pub proof fn lemma_total_push<V>(m: Map<String, V>, q: Seq<String>, k: String, f: spec_fn(V) -> nat)
+        ensures total_q(m, q.push(k), f) == total_q(m, q, f) + f(m[k])
+    {
+        assert(q.push(k).drop_last() =~= q);
+        assert(q.push(k).last() == k);
+    }
+
+    pub proof fn lemma_total_remove_at<V>(m: Map<String, V>, q: Seq<String>, i: int, f: spec_fn(V) -> nat)
+        requires 0 <= i < q.len()
+        ensures total_q(m, q, f) == total_q(m, q.remove(i), f) + f(m[q[i]])
+        decreases q.len()
+    {
+        if i == q.len() - 1 {
+            assert(q.remove(i) =~= q.drop_last());
+        } else {
+            lemma_total_remove_at(m, q.drop_last(), i, f);
+            assert(q.drop_last().remove(i) =~= q.remove(i).drop_last());
+            assert(q.remove(i).last() == q.last());
+            assert(q.drop_last()[i] == q[i]);
+        }
+    }
+
+    /// evicting a stored key lowers the total by exactly that entry's size
+    pub broadcast proof fn b_total_evict<V>(m: Map<String, V>, q: Seq<String>, k: String, f: spec_fn(V) -> nat)
+        requires wf(m, q), q.contains(k)
+        ensures #[trigger] total_q(m.remove(k), rm1(q, k), f) + f(m[k]) == total_q(m, q, f)
+    { reveal(rm1);
+        lemma_contains_has_first(q, k);
+        let p = first_pos(q, k);
+        lemma_total_remove_at(m, q, p, f);
+        lemma_remove_nodup(q, p);
+        assert forall|i: int| 0 <= i < q.remove(p).len() implies m[#[trigger] q.remove(p)[i]] == m.remove(k)[q.remove(p)[i]] by {
+            assert(q.remove(p).contains(q.remove(p)[i]));
+        }
+        lemma_total_frame(m, m.remove(k), q.remove(p), f);
+    }
+
+    /// storing k (fresh or replacing) and refreshing its recency
+    pub broadcast proof fn b_total_store<V>(m: Map<String, V>, q: Seq<String>, k: String, e: V, f: spec_fn(V) -> nat)
+        requires wf(m, q)
+        ensures #[trigger] total_q(m.insert(k, e), touch(q, k), f) == total_q(m.remove(k), rm1(q, k), f) + f(e)
+    { reveal(rm1);
+        lemma_wf_remove(m, q, k);
+        let r = rm1(q, k);
+        lemma_total_push(m.insert(k, e), r, k, f);
+        assert forall|i: int| 0 <= i < r.len() implies m.insert(k, e)[#[trigger] r[i]] == m.remove(k)[r[i]] by {
+            assert(r.contains(r[i]));
+        }
+        lemma_total_frame(m.insert(k, e), m.remove(k), r, f);
+    }
+
+    /// a key that is not stored contributes nothing: removing it changes neither store nor total
+    pub broadcast proof fn b_total_fresh<V>(m: Map<String, V>, q: Seq<String>, k: String, f: spec_fn(V) -> nat)
+        requires wf(m, q), !q.contains(k)
+        ensures #[trigger] total_q(m.remove(k), rm1(q, k), f) == total_q(m, q, f)
+    { reveal(rm1);
+        assert(m.remove(k) =~= m);
+    }
+
+    pub broadcast proof fn b_total_empty<V>(m: Map<String, V>, q: Seq<String>, f: spec_fn(V) -> nat)
+        ensures q.len() == 0 ==> #[trigger] total_q(m, q, f) == 0
+    { }
+
+    pub broadcast group group_total { b_total_evict, b_total_store, b_total_fresh, b_total_empty }
 
     pub proof fn lemma_rm_all_nodup(s: Seq<String>, k: String)
         requires s.no_duplicates()
         ensures rm_all(s, k) == rm1(s, k)
         decreases s.len()
-    {
+    { reveal(rm1);
         reveal(Seq::filter);
         let pred = |x: String| x != k;
         if s.len() == 0 {
@@ -367,7 +496,7 @@ pub mod sp {
 }
 pub use sp::*;
 
-broadcast use {vstd::std_specs::hash::group_hash_axioms, ax::group_string_keys, sp::axiom_clone_of, sp::group_wf};
+broadcast use {vstd::std_specs::hash::group_hash_axioms, ax::group_string_keys, sp::axiom_clone_of, sp::group_wf, sp::group_total};
 
 // ------------------------------------------------------------------------------------------------
 // Clock (DESIGN 5.2): Instant / Duration are kept verbatim; their readings are uninterpreted.
@@ -456,7 +585,7 @@ pub fn vd_position(o: &VecDeque<String>, key: &String) -> (r: Option<usize>)
     }
 {
     let r = vd_position_raw(o, key);
-    proof { if let Some(p) = r { lemma_first_pos_unique(o@, *key, p as int); } }
+    proof { reveal(rm1); if let Some(p) = r { lemma_first_pos_unique(o@, *key, p as int); } }
     r
 }
 
@@ -468,7 +597,7 @@ pub fn vd_position_str(o: &VecDeque<String>, key: &str) -> (r: Option<usize>)
     }
 {
     let r = vd_position_str_raw(o, key);
-    proof { if let Some(p) = r { lemma_first_pos_unique(o@, s2s(key), p as int); } }
+    proof { reveal(rm1); if let Some(p) = r { lemma_first_pos_unique(o@, s2s(key), p as int); } }
     r
 }
 
